@@ -205,6 +205,16 @@ func (r *R) Flush(done bool) {
 	os.Rename(p+".tmp", p)
 }
 
+// Finish is to be deferred by every test function: it marks the result complete unless the
+// function is panicking.
+func (r *R) Finish() {
+	if p := recover(); p != nil {
+		r.Flush(false)
+		panic(p)
+	}
+	r.Flush(true)
+}
+
 // Hash returns a short hash of any JSON-able value.
 func Hash(v any) string {
 	b, _ := json.Marshal(v)
